@@ -374,8 +374,8 @@ def to_poly(t):
 
 
 def _aff_as_disjoint(t):
-    """if t = c + sum 2^s_a * zext(slice_a) with pairwise disjoint bit ranges, where slice_a is a contiguous
-    bit-slice of an atom (the whole atom in the common case)"""
+    """if t = c + sum 2^s_a * zext(slice_a) with pairwise disjoint bit ranges, where every slice_a is a contiguous bit-slice of
+    an atom (the whole atom in the common case; a rotation contributes two slices of the same atom)"""
     w = t.w
     c, ents = t.aux
     occupied = c
@@ -385,33 +385,35 @@ def _aff_as_disjoint(t):
     for at, p in zip(t.args, ents):
         wa = at.w
         cs = cols(p, w, wa)
-        nz = [j for j in range(wa) if cs[j]]
-        if not nz:
-            continue
-        lo, hi = nz[0], nz[-1] + 1
-        c0 = cs[lo]
-        if c0 & (c0 - 1):
-            return None
-        s = c0.bit_length() - 1
-        span = 0
-        for j in range(lo, hi):
-            exp = (1 << (j - lo + s)) if j - lo + s < w else 0
-            if cs[j] != exp:
+        # maximal runs of consecutive atom bits that land on consecutive word bits
+        runs = []
+        j = 0
+        while j < wa:
+            cj = cs[j]
+            if not cj:
+                j += 1
+                continue
+            if cj & (cj - 1):
                 return None
-            span |= exp
-        # columns above the slice must be zero only because they fall off the top, or the slice is partial
-        if span & occupied:
-            return None
-        occupied |= span
-        if lo == 0 and (hi == wa or hi - lo + s >= w):
-            atom = at
-        else:
-            atom = trunc(lshr(at, lo), hi - lo) if lo else trunc(at, hi - lo)
-            if atom.op == "aff" and len(atom.args) == 1 and atom.args[0] is at and atom.w == hi - lo:
-                pass
-            if atom.op == "const":
+            pos = cj.bit_length() - 1
+            k = j + 1
+            while k < wa and cs[k] == (1 << (pos + k - j)) and pos + k - j < w:
+                k += 1
+            runs.append((j, k, pos))
+            j = k
+        for lo, hi, s_ in runs:
+            span = ((1 << (hi - lo)) - 1) << s_
+            if span & occupied:
                 return None
-        poly[(_atom_reg(atom),)] = poly.get((_atom_reg(atom),), 0) + (1 << s)
+            occupied |= span
+            if lo == 0 and (hi == wa or hi - lo + s_ >= w):
+                atom = at
+            else:
+                atom = trunc(lshr(at, lo), hi - lo) if lo else trunc(at, hi - lo)
+                if atom.op == "const":
+                    return None
+            key = (_atom_reg(atom),)
+            poly[key] = poly.get(key, 0) + (1 << s_)
     return poly
 
 
@@ -906,6 +908,11 @@ def ite(c, a, b):
         return a
     if c.op == "const":
         return a if c.aux else b
+    # a chain of tests with one common fall-back is one test: if c { if d { x } else { y } } else { y }  =  if c && d { x } else { y }
+    if a.op == "ite" and a.w > 1 and a.args[2] is b:
+        return ite(and1([c, a.args[0]]), a.args[1], b)
+    if b.op == "ite" and b.w > 1 and b.args[1] is a:
+        return ite(or1([c, b.args[0]]), a, b.args[2])
     w = a.w
     assert b.w == w, (a, b)
     if w == 1:
